@@ -100,6 +100,12 @@ def _cases(rng, n):
     _cases_t14(rng, n, reqs, want)  # --- T14
     _cases_t7(rng, n, reqs, want)  # --- T7
     _cases_t9(rng, n, reqs, want)  # --- T9
+    # --- T11: `sorted(xs)` of ints (duplicates, negatives, already sorted / reversed inputs)
+    for _ in range(n // 2):
+        xs = [rng.randrange(-9, 10) for _ in range(rng.randrange(0, 9))]
+        xs = rng.choice([xs, sorted(xs), sorted(xs, reverse=True), list(set(xs))])
+        reqs.append(("t11_sorted", {"xs": xs})); want.append(sorted(xs))
+    # --- end T11
     return reqs, want
 
 
